@@ -15,7 +15,7 @@ MAXA = (1 << 24) + 1024
 
 META = {
     "bounds": {
-        "quick": "single block: address in [0, 2^24+1024], length in [0, 4*65535+2] (up to 5-6 records), copier flag symbolic; sequences of 2 blocks with lengths <= 65535+2",
+        "quick": "single block: address in [0, 2^24+1024], length in [0, 4*65535+2] (up to 5-6 records), copier flag symbolic; sequences of 2 blocks with lengths <= 65535+2; a block written again after another one (A, B, A)",
         "thorough": "single block: length in [0, 6*65535+2]; sequences of 2 and 3 blocks with lengths <= 2*65535+2",
     },
     "outside": ["block contents (unconstrained blob: the writer never inspects them)", "more than 3 blocks per file", "lengths above the stated bound", "run-length records (the writer never produces them)"],
@@ -38,6 +38,9 @@ def jobs(tier, seed):
     if tier == "thorough":
         out.append({"id": "seq3/copier0", "n": 3, "maxlen": 65535 + 2, "copier": 0})
         out.append({"id": "seq3/copier1", "n": 3, "maxlen": 65535 + 2, "copier": 1})
+    # the same block written again after another one: every write produces its records, in write order
+    for copier in (0, 1):
+        out.append({"id": f"rewrite/copier{copier}", "n": 2, "maxlen": 65535 + 2, "copier": copier, "order": [0, 1, 0]})
     out.append({"id": "symbolic-copier-flag", "n": 1, "maxlen": 65535 + 2, "copier": None})
     return out
 
@@ -64,7 +67,8 @@ def run(spec, cx):
     try:
         w.begin()
         done = 0
-        for i, (A, L) in enumerate(blocks):
+        for i in (spec.get("order") or range(len(blocks))):
+            A, L = blocks[i]
             try:
                 w.write_block(cx.blob(f"blk{i}", L), A)
             except Exception as e:  # noqa: BLE001
@@ -110,13 +114,15 @@ def check(spec, cx, out):
     res.append(("reader-aligned", z3.And(*conds) if conds else z3.BoolVal(True)))
     # expected: the records tile block 0, then block 1, ... in write order
     ri = 0
-    for i in range(spec["n"]):
+    for wi, i in enumerate(spec.get("order") or range(spec["n"])):
         A, L = cx.t(f"A{i}"), cx.t(f"L{i}")
         cum = B(0)
         conds_i = []
         # the number of records of this block is structural on this path: consume records while
         # the block is not yet covered (decided under the path condition by the final query)
         while ri < len(records):
+            if spec.get("order") and ri > 0 and cx.implied(cum == L) is True:
+                break      # this write is covered; a following record of the same blob belongs to a later write of it
             off, kind, payload, size = records[ri]
             if kind != "data":
                 conds_i.append(z3.BoolVal(False))
@@ -140,6 +146,6 @@ def check(spec, cx, out):
             cum = cum + size
             ri += 1
         conds_i.append(cum == L)
-        res.append((f"block{i}-tiled-exactly-once", z3.And(*conds_i)))
+        res.append((f"write{wi}-block{i}-tiled-exactly-once" if spec.get("order") else f"block{i}-tiled-exactly-once", z3.And(*conds_i)))
     res.append(("no-extra-records", z3.BoolVal(ri == len(records))))
     return res
